@@ -5,8 +5,9 @@
    RequestRenewing / RequestRebinding of lib/client/msgtmpl (k = RDiscover / RSelecting / RRenewing / RRebinding);
    request_for takes the IAID of the client identifier to be the CRC-32 (IEEE) of the hardware address, as
    dhcpmsg.OptionClientIdentifier does.  wellformed_for (coq/spec/SpecClient.v) reads the property's conditions
-   directly off the raw bytes.  The retransmission-timing half of C16 is not treated here. *)
+   directly off the raw bytes.  The retransmission-timing half of C16 is in the last four theorems (model: sendMessage's delay recurrence in model/Client.v). *)
 From PSA Require Import model.Bytes model.Layer model.Dhcp spec.SpecCodec spec.SpecClient model.Tmpl proofs.TmplProofs.
+From PSA Require model.Client proofs.ClientProofs.
 Open Scope N_scope.
 
 (* For ALL hardware addresses of up to 16 bytes, transaction ids, IP ids, IAIDs, leased addresses and servers, and each
@@ -64,6 +65,29 @@ Print Assumptions C16_addressing.
 
 (* non-vacuity: concrete messages of each kind are recognised for their kind and for no other; a 16-byte hardware
    address meets the hypotheses; the CRC-32 is the IEEE one ("123456789" -> cbf43926) *)
+(* Retransmissions within one exchange (sendMessage): for EVERY sequence of random draws the waits are at least the
+   initial 700 ms, never shrink, at most double, and stay constant once past the 100 s barrier; the transaction id is fixed by
+   the template closure (C16_request_wellformed takes xid as a parameter of the whole exchange) *)
+Theorem C16_retransmission_spacing : forall rs d, (Client.retx_first <= d)%Z -> Forall (fun r => (0 <= r)%Z) rs ->
+  Forall (fun x => (Client.retx_first <= x)%Z) (Client.delays d rs) /\
+  (forall i a b, nth_error (Client.delays d rs) i = Some a -> nth_error (Client.delays d rs) (S i) = Some b -> (a <= b)%Z) /\
+  (forall a, hd_error (Client.delays d rs) = Some a -> (d <= a)%Z).
+Proof. exact ClientProofs.delays_spacing. Qed.
+Print Assumptions C16_retransmission_spacing.
+
+Theorem C16_retransmission_step : forall d r, (0 <= d)%Z -> (0 <= r)%Z -> (d <= Client.next_delay d r <= 2 * d)%Z.
+Proof. exact ClientProofs.next_delay_bounds. Qed.
+Print Assumptions C16_retransmission_step.
+
+Theorem C16_retransmission_barrier : forall d r, (Client.retx_barrier <= d)%Z -> Client.next_delay d r = d.
+Proof. exact ClientProofs.delay_constant_past_barrier. Qed.
+Print Assumptions C16_retransmission_barrier.
+
+(* nothing is transmitted for an exchange that ended before its first transmission was due *)
+Theorem C16_no_transmission_after_end : forall t pre dur kind, (dur <= pre)%Z -> Client.sent t pre dur kind = [].
+Proof. exact ClientProofs.sent_nothing_after_end. Qed.
+Print Assumptions C16_no_transmission_after_end.
+
 Example C16_nonvacuous :
   let hw := [2; 0; 0; 0; 0; 9] in
   let hw16 := [1; 2; 3; 4; 5; 6; 7; 8; 9; 10; 11; 12; 13; 14; 15; 16] in
